@@ -65,6 +65,15 @@ DRIVERS["P8"] = dict(
     script=[[("send", "A", "T", P("T", 0, 5000)), ("send", "B", "R", P("Rb", 0, 100)),
              ("send", "A", "R", P("R", 0, 1300)), ("send", "A", "T", P("T", 1, 100))]],
 )
+# P9 ordered partially reliable channel whose stream sequence number wraps (65534, 65535, 0, 1) while messages are abandoned
+DRIVERS["P9"] = dict(
+    setup="settled",
+    channels=[C.chan("R", negotiated=0), C.chan("P", negotiated=1, maxRetransmits=0)],
+    sseq={"P": 65534, "R": 65535},
+    script=[[("send", "A", "P", P("P", 0, 100)), ("send", "A", "P", P("P", 1, 100)),
+             ("send", "A", "P", P("P", 2, 100)), ("send", "A", "P", P("P", 3, 100)),
+             ("send", "A", "R", P("R", 0, 100))]],
+)
 
 
 def terminal_extra(world):
@@ -87,8 +96,8 @@ def scenario(name):
     return C.make_factory(DRIVERS[name]), oracle, C.default_signature
 
 
-QUICK = [("P1", 2), ("P2", 2), ("P3", 2), ("P4", 2), ("P5", 2), ("P6", 2), ("P7", 2), ("P8", 2)]
-THOROUGH = [("P1", 3), ("P2", 3), ("P3", 3), ("P4", 3), ("P5", 3), ("P6", 3), ("P7", 3), ("P8", 3)]
+QUICK = [("P1", 2), ("P2", 2), ("P3", 2), ("P4", 2), ("P5", 2), ("P6", 2), ("P7", 2), ("P8", 2), ("P9", 2)]
+THOROUGH = [("P1", 3), ("P2", 3), ("P3", 3), ("P4", 3), ("P5", 3), ("P6", 3), ("P7", 3), ("P8", 3), ("P9", 3)]
 
 
 def run(tier, seed):
